@@ -180,6 +180,12 @@ def r2(ctx):
                     # only receivers that may be task handles: typed AsyncResult or fed by a task list
                     if ty[0] == "ext" or _fed_by_tasks(ana, fi, cs.node):
                         gets.append((fi, cs.node))
+    for cs_ in submits:
+        cbs = [k.arg for k in cs_.node.keywords if k.arg in ("callback", "error_callback")] if isinstance(cs_.node, ast.Call) else []
+        if cbs:
+            ctx.fail(cs_.caller, f"the task is submitted with {', '.join(cbs)}: the callback runs in the pool's result-handler thread, and if it raises "
+                                 "that thread dies - get() then waits for ever", line=cs_.node.lineno, role=f"submit:callback:{','.join(cbs)}",
+                     expected="results and errors are collected by get() only", found=unparse(cs_.node, 80))
     if submits and not gets:
         ctx.fail(submits[0].caller, "tasks are submitted asynchronously but no AsyncResult.get() consumes them: a worker's "
                                     "exception would never surface", line=submits[0].node, role="get:missing")
